@@ -33,7 +33,17 @@ def cases(fn: ast.FunctionDef, rename: Optional[Dict[str, str]] = None, limit: i
             if isinstance(st, ast.Expr) and isinstance(st.value, ast.Constant):
                 continue  # docstring
             if isinstance(st, ast.Return):
-                out.append((conds, sub(st.value, env) if st.value is not None else None))
+                v = st.value
+
+                def emit(e, cs):
+                    # a conditional expression is a case split like any other
+                    if isinstance(e, ast.IfExp):
+                        f_ = norm.nnf(sub(e.test, env))
+                        emit(e.body, cs | frozenset(norm.atoms_true(f_)))
+                        emit(e.orelse, cs | frozenset(norm.atoms_true(norm.neg(f_))))
+                    else:
+                        out.append((cs, sub(e, env) if e is not None else None))
+                emit(v, conds)
                 return
             if isinstance(st, ast.Raise):
                 return
